@@ -100,7 +100,7 @@ def first_misbehaviour(b):
 
 def own_batch(hist, c):
     for b in hist['batches']:
-        if (c['key'], c['i']) in b['items']:
+        if (c['key'], c['i']) in b['items'] and b.get('batcher', 0) == c.get('batcher', 0):
             return b
     return None
 
@@ -131,6 +131,10 @@ def judge_outcomes(hist, skip=lambda c: False, wellbehaved=False):
         if kind == 'exc' and isinstance(obj, YieldedError) and obj.args[1] != k:
             out.append(V('foreign-exception', f'{desc} received {obj!r}, yielded for another key', 'foreign-exception'))
             continue
+        if kind == 'ok' and isinstance(obj, Val) and hist['batches'][obj.batch].get('batcher', 0) != c.get('batcher', 0):
+            out.append(V('foreign-value', f'{desc} (batcher {c.get("batcher", 0)}) received {obj!r}, produced by the other batcher',
+                         'foreign-batcher-value'))
+            continue
         if kind == 'cancelled':
             out.append(V('unrequested-cancel', f'{desc} was cancelled although nobody cancelled it', 'unrequested-cancel'))
             continue
@@ -139,6 +143,8 @@ def judge_outcomes(hist, skip=lambda c: False, wellbehaved=False):
             # a sharer: must have received the outcome of some request for its key
             firsts = []
             for bb in hist['batches']:
+                if bb.get('batcher', 0) != c.get('batcher', 0):
+                    continue
                 m = first_misbehaviour(bb)
                 for i, (kk, o, t) in enumerate(bb['yields']):
                     if kk == k and (m is None or i < m):
@@ -147,7 +153,7 @@ def judge_outcomes(hist, skip=lambda c: False, wellbehaved=False):
             same = any(obj is o for o in firsts)
             if not same:
                 shared_with = [o for o in callers if o['i'] in originals and o['key'] == k and o['outcome'] is not None
-                               and o['outcome'][1] is obj]
+                               and o['outcome'][1] is obj and o.get('batcher', 0) == c.get('batcher', 0)]
                 if not shared_with:
                     out.append(V('sharer-outcome', f'{desc} (joined an existing request) ended with {kind} {obj!r}, which is neither a '
                                  f'first yield for its key nor the outcome of the request it joined', 'sharer-outcome'))
